@@ -641,48 +641,58 @@ func (propC14) Check(t *testing.T, p *Plan, st *Stats) *Violation {
 		}
 		return nil
 	}
-	if len(observed) > 0 {
-		// (i) an observed fault must surface as an error.
-		if !o.Failed {
-			return viol("C14(i:error-surfaces)", fmt.Sprintf("an error (the code was told about: %v)", observed), "nil error, "+o.Result.Summary()+fmt.Sprintf(", %d bytes of output", len(o.Stdout)))
-		}
-	} else {
-		switch {
-		case expectErr && !o.Failed:
-			return viol("C14(invalid-query-fails)", "an error for the invalid or unsupported query", "nil error, "+o.Result.Summary())
-		case !expectErr && o.Failed && len(p.Faults) == 0:
-			return viol("C14(iv:twin-succeeds)", "the fault-free run succeeds", clip(o.ErrText, 300))
-		case !expectErr && o.Failed:
-			return viol("C14(ii:no-spurious-error)", "nil error (no fault reached the code)", clip(o.ErrText, 300))
-		case !expectErr && len(p.Faults) > 0:
-			// (ii) unobserved faults must not change the answer.
-			layouts := func(id string, open int) (Layout, bool) {
-				for _, oc := range o.Opens {
-					if oc.ID == id && oc.OpenIdx == open {
-						c := p.World.Find(id)
-						if c == nil {
-							return Layout{}, false
-						}
-						l, err := BuildStream(c, oc.Opts, nil)
-						return l, err == nil
-					}
+	// layouts of the streams this run opened, for the twin
+	layouts := func(id string, open int) (Layout, bool) {
+		for _, oc := range o.Opens {
+			if oc.ID == id && oc.OpenIdx == open {
+				c := p.World.Find(id)
+				if c == nil {
+					return Layout{}, false
 				}
-				return Layout{}, false
+				l, err := BuildStream(c, oc.Opts, nil)
+				return l, err == nil
 			}
-			tw := c14Twin(p, true, layouts)
-			o2 := Exec(t, tw, 0, ExecOpts{})
-			if st != nil {
-				st.NoteOutcome(o2)
+		}
+		return Layout{}, false
+	}
+	switch {
+	case o.Failed:
+		// An error needs a reason: a failure that was delivered to the code, or an invalid query.
+		if len(observed) == 0 && !expectErr {
+			if len(p.Faults) == 0 {
+				return viol("C14(iv:twin-succeeds)", "the fault-free run succeeds", clip(o.ErrText, 300))
 			}
-			if o2.Bad() || o2.Failed {
-				return viol("C14(iv:twin-succeeds)", "the fault-free twin succeeds", o2.ErrClass()+" "+clip(o2.ErrText+o2.Panic, 300))
+			return viol("C14(ii:no-spurious-error)", "nil error (no failure reached the code)", clip(o.ErrText, 300))
+		}
+	case expectErr:
+		return viol("C14(invalid-query-fails)", "an error for the invalid or unsupported query", "nil error, "+o.Result.Summary())
+	case len(p.Faults) > 0:
+		// Evaluation succeeded although faults were injected. That is fine exactly
+		// if the answer is the fault-free answer: a failure may go unreported only
+		// if nothing it could have carried is missing (the code may have read
+		// ahead into a failure it never needed; it may not drop data silently).
+		tw := c14Twin(p, true, layouts)
+		o2 := Exec(t, tw, 0, ExecOpts{})
+		if st != nil {
+			st.NoteOutcome(o2)
+			st.ProbeIf(len(observed) > 0, "success_although_failure_delivered_checked_against_twin")
+		}
+		if o2.Bad() || o2.Failed {
+			return viol("C14(iv:twin-succeeds)", "the fault-free twin succeeds", o2.ErrClass()+" "+clip(o2.ErrText+o2.Panic, 300))
+		}
+		if a, b := o.Result.Render()+o.Stdout, o2.Result.Render()+o2.Stdout; a != b && p.Tags["undetermined"] != "1" {
+			if len(observed) > 0 {
+				return viol("C14(i:error-surfaces)", fmt.Sprintf("an error (the code was told about: %v), or at least the complete answer: %s", observed, clip(b, 300)),
+					"nil error and a truncated answer: "+clip(a, 300))
 			}
-			if a, b := o.Result.Render()+o.Stdout, o2.Result.Render()+o2.Stdout; a != b && p.Tags["undetermined"] != "1" {
-				return viol("C14(ii:result-equals-twin)", "the fault-free twin's result: "+clip(b, 400), clip(a, 400))
-			}
-			if v := closeViol(o2, "fault-free twin"); v != nil {
-				return v
-			}
+			return viol("C14(ii:result-equals-twin)", "the fault-free twin's result: "+clip(b, 400), clip(a, 400))
+		}
+		if len(observed) > 0 && p.Tags["undetermined"] == "1" {
+			// nothing to compare the answer with: fall back to the literal reading
+			return viol("C14(i:error-surfaces)", fmt.Sprintf("an error (the code was told about: %v)", observed), "nil error, "+o.Result.Summary())
+		}
+		if v := closeViol(o2, "fault-free twin"); v != nil {
+			return v
 		}
 	}
 	if v := closeViol(o, "this run"); v != nil {
